@@ -48,7 +48,7 @@ fn hostile_real_table() -> &'static str { "CREATE TABLE t ( { . k } => k TEXT , 
 
 fn hostile_real_line(rng: &mut Rng) -> String {
     let r = *rng.pick(&["NaN", "inf", "-inf", "-0.0", "0.0", "1e308", "-1e308", "5e-324", "1.5", "nan", "+inf"]);
-    let i = *rng.pick(&["9223372036854775807", "-9223372036854775808", "0", "-1", "3037000500", "4611686018427387904", "1"]);
+    let i = *rng.pick(&["9223372036854775807", "-9223372036854775808", "0", "-1", "3037000500", "4611686018427387904", "1", "4294967296", "-8589934592", "2147483648", "4294967297"]);
     let ts = *rng.pick(GAP_TIMES);
     let iv = *rng.pick(&["0:00:00", "2562047788015:12:55", "-2562047788015:12:55", "9223372036854775807:0:0", "0:0:-9223372036854775808", "1:02:03", "99999999999:59:59", "0:307445734561825861:0", "0:9223372036854775807:59", "1:153722867280912931:5", "0:-307445734561825861:0"]);
     let mut parts = vec![format!("\"k\":{}", json_str(*rng.pick(&["a", "b", ""])))];
@@ -151,7 +151,15 @@ impl Monitor for C09 {
                 let lines: Vec<String> = (0..(1 + rng.below(8))).map(|_| hostile_real_line(rng)).collect();
                 let stmt = match rng.below(6) {
                     0 => rng.pick(HOSTILE_STATEMENTS).to_string(),
-                    1 | 2 => format!("SELECT {} FROM t", rng.pick(HOSTILE_EXPRESSIONS)),
+                    // every operator and two-argument function over every pair of operand types and extreme literals (most
+                    // combinations are type errors today; whatever they are or become, they must be values or errors)
+                    1 => {
+                        const OPERANDS: &[&str] = &["i", "r", "iv", "ts", "k", "ia", "4294967296", "-4294967296", "8589934592", "2147483648", "0", "-1", "0.0", "1e308", "( -9223372036854775807 - 1 )", "9223372036854775807", "( '0:00:01' :: interval )", "NULL", "TRUE"];
+                        let (a, b) = (*rng.pick(OPERANDS), *rng.pick(OPERANDS));
+                        let e = match rng.below(8) { 0 => format!("{} + {}", a, b), 1 => format!("{} - {}", a, b), 2 => format!("{} * {}", a, b), 3 | 4 => format!("{} / {}", a, b), 5 => format!("pow ( {} , {} )", a, b), 6 => format!("least ( {} , {} )", a, b), _ => format!("{} < {}", a, b) };
+                        if rng.chance(1, 4) { format!("SELECT k FROM t GROUP BY k HAVING ( {} ) IS NOT NULL", format!(" {} ", e).replace("iv", "SUM ( iv )").replace(" i ", " SUM ( i ) ").replace(" r ", " MAX ( r ) ").replace("ts", "MIN ( ts )").replace("ia", "ARRAY_AGG ( i )")) } else { format!("SELECT {} FROM t", e) }
+                    }
+                    2 => format!("SELECT {} FROM t", rng.pick(HOSTILE_EXPRESSIONS)),
                     3 => format!("SELECT k FROM t WHERE ( {} ) IS NOT NULL", rng.pick(HOSTILE_EXPRESSIONS)),
                     4 => format!("SELECT {} FROM t{}", rng.pick(HOSTILE_AGGREGATES), if rng.chance(1, 2) { " GROUP BY k" } else { "" }),
                     _ => format!("SELECT k FROM t GROUP BY k HAVING {} IS NOT NULL", rng.pick(HOSTILE_AGGREGATES)),
